@@ -776,6 +776,9 @@ func (fc *FnCtx) ret(x *ssa.Return) {
 	}
 	env := fc.returnEnv(x, results)
 	for _, en := range fc.c.Ensures {
+		if len(en.Props) > 0 && fc.eng.curProp != "" && !hasProp(en.Props, fc.eng.curProp) {
+			continue
+		}
 		t, sks, err := fc.specBoolGoal(env, en.Text)
 		if err != nil {
 			fc.unbound = append(fc.unbound, fmt.Sprintf("ensures %q: %v", en.Text, err))
